@@ -15,8 +15,11 @@ that is the observation "this connection was at a message boundary / I read my o
 from __future__ import annotations
 
 import itertools
+import os
+import select
 import sys
 import threading as _real_threading
+import time as _real_time
 import types
 import warnings
 
@@ -47,6 +50,52 @@ class Boom(Exception):
 
 def _lab(label: str) -> str:
     return "acq" if label.startswith("acq:") else label
+
+
+class Watchdog:
+    """Detects "this borrower is blocked forever" on an in-process fake worker without guessing with a timeout:
+    the client thread and the worker thread both sit in a blocking pipe read and both pipes are empty (three polls
+    in a row).  Nobody can make progress then; the worker's output pipe is closed so that the client's read ends
+    with an error -- which is what the borrower observes instead of its answer.  `hard` seconds bounds everything."""
+
+    def __init__(self, tr, client_ident: int, hard: float = 20.0) -> None:
+        self.tr, self.client_ident, self.hard = tr, client_ident, hard
+        self.fired = False
+        self._stop = _real_threading.Event()
+        self._th = _real_threading.Thread(target=self._run, daemon=True, name="c32-watchdog")
+
+    def __enter__(self):
+        self._th.start()
+        return self
+
+    def __exit__(self, *a):
+        self._stop.set()
+        self._th.join(2)
+
+    @staticmethod
+    def _blocked_in_read(ident) -> bool:
+        f = sys._current_frames().get(ident)
+        return f is not None and f.f_code.co_name == "readinto"
+
+    @staticmethod
+    def _empty(fobj) -> bool:
+        try:
+            return not select.select([fobj.fileno()], [], [], 0)[0]
+        except (ValueError, OSError):
+            return False
+
+    def _run(self) -> None:
+        hits, t0 = 0, _real_time.time()
+        while not self._stop.wait(0.01):
+            tr = self.tr
+            stuck = (tr.thread.is_alive() and self._blocked_in_read(tr.thread.ident)
+                     and self._blocked_in_read(self.client_ident)
+                     and self._empty(tr.client.reader) and self._empty(tr.server_side.reader))
+            hits = hits + 1 if stuck else 0
+            if hits >= 3 or _real_time.time() - t0 > self.hard:
+                self.fired = True
+                tr.break_pipe()
+                return
 
 
 def _server():
@@ -238,6 +287,7 @@ class PoolWorld:
         self.mon: list[dict] = []
         self.tags = itertools.count(10)
         self.tseq = itertools.count(1)
+        self.last_use: dict[int, str] = {}      # worker -> "kind:script" of the last script that ran on it
         w = self
 
         class EventShim:
@@ -317,10 +367,19 @@ class PoolWorld:
                     w.held[int(me[1:]) - 1] = self.id
 
             def _serve(self):
+                # When the real server loop gives up on this connection (protocol garbage after a misused
+                # connection) the fake "process" stays alive for poll() -- process death is the model's Die action
+                # only -- but its pipe ends are closed, so a later borrower gets an error instead of blocking.
                 try:
                     _server().serve(self.server_side)
                 except Exception:  # noqa: BLE001
                     pass
+                finally:
+                    for f in (self.server_side.writer, self.server_side.reader):
+                        try:
+                            f.close()
+                        except Exception:  # noqa: BLE001
+                            pass
 
             @property
             def proc(self):
@@ -334,6 +393,13 @@ class PoolWorld:
             def writer(self):
                 return self.client.writer
 
+            def break_pipe(self):
+                """Close the worker's end of its output pipe: a client blocked reading it gets EOF."""
+                try:
+                    os.close(self.server_side.writer.fileno())
+                except Exception:  # noqa: BLE001
+                    pass
+
             def close(self):
                 if self.closed:
                     return
@@ -342,7 +408,9 @@ class PoolWorld:
                     self.client.writer.close()      # EOF for the worker, as closing a child's stdin
                 except Exception:  # noqa: BLE001
                     pass
-                self.thread.join(5)
+                self.thread.join(2)
+                if self.thread.is_alive():
+                    return                           # never close a stream another thread is blocked on
                 for t in (self.client, self.server_side):
                     try:
                         t.close()
@@ -375,7 +443,13 @@ class PoolWorld:
                 if not r:
                     s.release_all()
                     break
-                s.step(r[0])
+                try:
+                    s.step(r[0])
+                except Exception:  # noqa: BLE001   (a thread that no longer reaches a park point)
+                    for tr in self.workers:
+                        tr.break_pipe()
+                    s.release_all()
+                    break
         finally:
             for tr in self.workers:
                 try:
@@ -413,22 +487,24 @@ class PoolWorld:
     def _use(self, b: int, svc, tr, arm) -> None:
         kind, name, pos = self.kind[b - 1]
         tag = next(self.tags)
-        try:
-            ok = svc.echo(x=tag) == tag
-        except Exception:  # noqa: BLE001
-            ok = False
-        self._mon("Probe", b=b, w=tr.id, ok=ok)
-        if not ok:
-            self.outcome[b].append(("dirty-handout", tr.id))
-            return
-        reads, err = run_script(svc, name, next(self.tags) * 10, pos, arm)
+        with Watchdog(tr, _real_threading.get_ident()) as wdg:
+            try:
+                ok = svc.echo(x=tag) == tag
+            except Exception:  # noqa: BLE001
+                ok = False
+            self._mon("Probe", b=b, w=tr.id, ok=ok, why=self.last_use.get(tr.id, "fresh"))
+            if not ok:
+                self.outcome[b].append(("dirty-handout", tr.id, "blocked" if wdg.fired else "error"))
+                return
+            self.last_use[tr.id] = f"{kind}:{name}"
+            reads, err = run_script(svc, name, next(self.tags) * 10, pos, arm)
         if kind == "clean":
             self._mon("Answer", b=b, w=tr.id, ok=all(reads) and err in (None, "Boom"))
         self.outcome[b].append((kind, name, pos, err))
 
     # ------------------------------------------------------------------ observation
     def _mon(self, e: str, **k) -> None:
-        self.mon.append({"e": e, "b": 0, "w": 0, "ok": True, "n": 0, "m": self.max_idle, **k})
+        self.mon.append({"e": e, "b": 0, "w": 0, "ok": True, "n": 0, "m": self.max_idle, "why": "", **k})
 
     def observe(self) -> dict:
         idle = [e.transport.id for dq in self.pool._idle.values() for e in dq]
@@ -627,15 +703,29 @@ def _table_case(c: dict, inproc: bool) -> dict:
         pool, cmd, wd = WorkerPool(max_idle=c["mi"], idle_timeout=60.0), worker_cmd(), None
     obs = {"first_ok": True, "reused": False, "probe_ok": True, "own_ok": True, "idle_after_first": 0, "idle_end": 0,
            "err": "", "second_alive": True}
+    def guard(svc, seconds):
+        """A real worker that never answers would block the borrower forever: kill it after a generous wait
+        (a started worker answers an echo in milliseconds), the borrower then sees EOF instead of its answer."""
+        tr = svc._transport._inner
+        t = _real_threading.Timer(seconds, tr.proc.kill)
+        t.daemon = True
+        t.start()
+        return t
+
     try:
         on_log, arm = make_on_log()
         pid1 = None
         try:
             with pool.connect(PoolSvc, cmd, on_log=on_log) as svc:
-                pid1 = svc.pid()
-                obs["first_ok"] = svc.echo(x=41) == 41
-                _, err = run_script(svc, c["script"], 7, c["pos"], arm)
-                obs["err"] = err or ""
+                g = guard(svc, 30.0)
+                try:
+                    svc.pid()                                  # (a real worker has started once this returns)
+                    pid1 = svc._transport._inner.proc.pid
+                    obs["first_ok"] = svc.echo(x=41) == 41
+                    _, err = run_script(svc, c["script"], 7, c["pos"], arm)
+                    obs["err"] = err or ""
+                finally:
+                    g.cancel()
         except Boom:
             obs["err"] = "Boom"
         except Exception as e:  # noqa: BLE001
@@ -645,19 +735,22 @@ def _table_case(c: dict, inproc: bool) -> dict:
             with pool.connect(PoolSvc, cmd) as svc:
                 tr = svc._transport._inner
                 obs["second_alive"] = tr.proc.poll() is None
+                g = guard(svc, 15.0)
                 try:
                     a = svc.echo(x=7001)
                     obs["probe_ok"] = a == 7001
                 except Exception:  # noqa: BLE001
                     obs["probe_ok"] = False
+                finally:
+                    g.cancel()
                 if obs["probe_ok"]:
                     try:
                         obs["own_ok"] = svc.echo(x=7002) == 7002 and [b.batch.column("v")[0].as_py() for b in svc.count(tag=9, n=2, logs=0)] == [9000, 9001]
-                        obs["reused"] = svc.pid() == pid1
+                        obs["reused"] = tr.proc.pid == pid1
                     except Exception:  # noqa: BLE001
                         obs["own_ok"] = False
                 else:
-                    obs["reused"] = True     # a fresh worker always answers its first call; only a reused one can be off-boundary
+                    obs["reused"] = tr.proc.pid == pid1
         except Exception as e:  # noqa: BLE001
             obs["probe_ok"] = False
             obs["err"] += "|second:" + type(e).__name__
@@ -668,3 +761,11 @@ def _table_case(c: dict, inproc: bool) -> dict:
         else:
             pool.close()
     return obs
+
+
+if __name__ == "__main__":        # level 2 runs in its own process: python -m drivers._conc2_pool <cases.json> <out.json>
+    import json
+
+    cases = json.load(open(sys.argv[1]))
+    out = run_table_subprocess(cases)
+    json.dump(out, open(sys.argv[2], "w"))
